@@ -293,6 +293,12 @@ type variantSpec struct {
 	Expect   string `json:"expect"` // substring expected in the report
 	Canary   bool   `json:"canary"` // also run in the quick tier
 	Note     string `json:"note"`
+	// further replacements in the same file (each old text must occur exactly once), for a variant that needs e.g. a
+	// new import or a new field next to the edited function
+	Edits []struct {
+		Old string `json:"old"`
+		New string `json:"new"`
+	} `json:"edits,omitempty"`
 }
 
 type variantResult struct {
@@ -349,6 +355,15 @@ func runVariants(prop, tier, repo string) []variantResult {
 				res[i] = r
 				return
 			}
+			edited := strings.Replace(string(src), sp.Old, sp.New, 1)
+			for _, ed := range sp.Edits {
+				if strings.Count(edited, ed.Old) != 1 {
+					r.Outcome = "skipped: the tree no longer contains the text this variant edits"
+					res[i] = r
+					return
+				}
+				edited = strings.Replace(edited, ed.Old, ed.New, 1)
+			}
 			tmp, err := os.CreateTemp("", "vcheck-ov-*.json")
 			if err != nil {
 				r.Outcome = "skipped: " + err.Error()
@@ -356,7 +371,7 @@ func runVariants(prop, tier, repo string) []variantResult {
 				return
 			}
 			defer os.Remove(tmp.Name())
-			json.NewEncoder(tmp).Encode(map[string]string{abs: strings.Replace(string(src), sp.Old, sp.New, 1)})
+			json.NewEncoder(tmp).Encode(map[string]string{abs: edited})
 			tmp.Close()
 			cmd := exec.Command(os.Args[0], "-prop", prop, "-tier", "quick", "-no-evidence", "-overlay", tmp.Name(), "-repo", repo)
 			out, err := cmd.CombinedOutput()
